@@ -198,15 +198,80 @@ func projections(schema map[string]any, inst any) []pair {
 	return out
 }
 
-// inlineRefs replaces every local reference by its target and drops the definitions.
+// lookup resolves a local JSON pointer reference ("#/a/b") inside root.
+func lookup(root map[string]any, ref string) (any, bool) {
+	if !strings.HasPrefix(ref, "#/") {
+		return nil, false
+	}
+	var cur any = root
+	for _, seg := range strings.Split(ref[2:], "/") {
+		seg = strings.ReplaceAll(strings.ReplaceAll(seg, "~1", "/"), "~0", "~")
+		switch c := cur.(type) {
+		case map[string]any:
+			n, ok := c[seg]
+			if !ok {
+				return nil, false
+			}
+			cur = n
+		case []any:
+			i, err := strconv.Atoi(seg)
+			if err != nil || i < 0 || i >= len(c) {
+				return nil, false
+			}
+			cur = c[i]
+		default:
+			return nil, false
+		}
+	}
+	return cur, true
+}
+
+// Flatten returns sub with every local reference (resolved against root) replaced by its target down
+// to the given depth; references left below that depth become {} (accept-all). The result has no
+// references and needs no definitions. It is a *candidate*: the caller re-checks its predicate.
+func Flatten(root map[string]any, sub map[string]any, depth int) map[string]any {
+	var walk func(v any, d int) any
+	walk = func(v any, d int) any {
+		switch t := v.(type) {
+		case map[string]any:
+			if r, ok := t["$ref"].(string); ok {
+				if d >= depth {
+					return map[string]any{}
+				}
+				if tgt, ok := lookup(root, r); ok {
+					return walk(clone(tgt), d+1)
+				}
+				return map[string]any{}
+			}
+			o := map[string]any{}
+			for k, x := range t {
+				if k == "definitions" {
+					continue
+				}
+				o[k] = walk(x, d)
+			}
+			return o
+		case []any:
+			o := make([]any, len(t))
+			for i, x := range t {
+				o[i] = walk(x, d)
+			}
+			return o
+		}
+		return v
+	}
+	return walk(clone(sub), 0).(map[string]any)
+}
+
+// inlineRefs replaces every local reference by its target (to a bounded depth, recursive schemas keep
+// their innermost references) and drops the definitions when no reference is left.
 func inlineRefs(root map[string]any) map[string]any {
 	var walk func(v any, depth int) any
 	walk = func(v any, depth int) any {
 		switch t := v.(type) {
 		case map[string]any:
-			if r, ok := t["$ref"].(string); ok && strings.HasPrefix(r, "#/definitions/") && depth < 8 {
-				defs, _ := root["definitions"].(map[string]any)
-				if tgt, ok := defs[strings.TrimPrefix(r, "#/definitions/")]; ok {
+			if r, ok := t["$ref"].(string); ok && depth < 4 {
+				if tgt, ok := lookup(root, r); ok {
 					return walk(clone(tgt), depth+1)
 				}
 			}
@@ -225,14 +290,21 @@ func inlineRefs(root map[string]any) map[string]any {
 		return v
 	}
 	c := clone(root).(map[string]any)
+	defs := c["definitions"]
 	delete(c, "definitions")
-	return walk(c, 0).(map[string]any)
+	out := walk(c, 0).(map[string]any)
+	if strings.Contains(Text(out), `"$ref"`) && defs != nil {
+		out["definitions"] = defs
+	}
+	return out
 }
 
 func schemaCands(s map[string]any) []map[string]any {
 	var out []map[string]any
 	if strings.Contains(Text(s), `"$ref"`) {
-		out = append(out, inlineRefs(s))
+		if in := inlineRefs(s); len(Text(in)) < 4*len(Text(s))+2000 && Text(in) != Text(s) {
+			out = append(out, in)
+		}
 	}
 	ks := keys(s)
 	// drop a keyword
@@ -383,6 +455,11 @@ func instCands(v any) []any {
 	}
 	switch t := v.(type) {
 	case map[string]any:
+		if len(t) > 2 {
+			for _, k := range keys(t) {
+				out = append(out, map[string]any{k: clone(t[k])}) // keep a single member
+			}
+		}
 		for _, k := range keys(t) {
 			c := clone(t).(map[string]any)
 			delete(c, k)
